@@ -2,14 +2,23 @@
 """Turns the output of selftest/sensitivity.sh into the markdown of DESIGN.md 9.4 (own breakages, seeded changes in the
 final run, benign edits)."""
 import re, sys, collections
-lines = open(sys.argv[1]).read().splitlines()
+# several files: an entry of a later file replaces the entry of the same name in an earlier one (partial re-runs)
+lines = []
+for f in sys.argv[1:]:
+    lines += open(f).read().splitlines()
 own, seeded, benign, other = [], [], collections.OrderedDict(), []
+def put(lst, rec):
+    for i, r in enumerate(lst):
+        if r[1] == rec[1]:
+            lst[i] = rec
+            return
+    lst.append(rec)
 for l in lines:
     m = re.match(r"^(CAUGHT|MISSED)\s+(\S+)\s+(.*)\((\d+)s\)$", l)
     if m:
         kind, name, rules, secs = m.groups()
         rules = ", ".join(sorted(set(re.findall(r"rule=(\S+)", rules)))) or rules.strip()
-        (seeded if name.startswith("seeded/") else own).append((kind, name, rules, int(secs)))
+        put(seeded if name.startswith("seeded/") else own, (kind, name, rules, int(secs)))
         continue
     m = re.match(r"^(SILENT|ALARM)\s+(\S+)\s+(C\d\d)(.*)$", l)
     if m:
